@@ -55,9 +55,14 @@ def main():
                     dc = json.loads(meta_txt).get('demo_cmd', '')
                 except ValueError:
                     dc = ''
+                m2 = re.search(r'--features[ =]"?([A-Za-z0-9_, -]+?)"?(?: --|$| #)', dc + ' ')
                 if '--no-default-features' in dc:
-                    m2 = re.search(r'--features[ =]([A-Za-z0-9_,-]+)', dc)
-                    feat = '--no-default-features' + (' --features %s' % m2.group(1) if m2 else '')
+                    feat = '--no-default-features' + (' --features %s' % m2.group(1).strip().replace(' ', ',') if m2 else '')
+                elif 'cargo test' in dc and m2:
+                    # the demonstration names its own feature set: use exactly that
+                    feat = '--features %s' % m2.group(1).strip().replace(' ', ',')
+                elif 'cargo test' in dc and '--features' not in dc:
+                    feat = ''
                 inc = ' -- --include-ignored' if 'include-ignored' in dc and os.environ.get('CONFIRM_IGNORED') else ''
                 cmd = 'cargo test --offline %s --test demo%d%s%s 2>&1 | tail -15' % (feat, k, rel, inc)
                 with_rc, o1 = sh(cmd)
